@@ -15,7 +15,7 @@
    WHICH free id a PADR gets is not constrained by the property: PADR / PBEGIN carry a [choice] — Policy (HEAD's
    sequential counter), or an observed answer (Chose c / Refused) that the step accepts only when admissible.  Every
    theorem that quantifies over ops / histories covers every choice.
-   reserving v = id-0 guard, reservation and HA check present; owning v = reserving v and owner check present.
+   reserving v = id-0 guard, reservation, HA check and guarded index removal present; owning v = reserving v and owner check present.
    alive s x = x is in sidIndex or sessions, or has been built by a handlePADR that has not indexed it yet. *)
 From Coq Require Import List ZArith NArith Bool Lia Arith.
 From stdpp Require Import gmap nmap.
@@ -297,22 +297,14 @@ Print Assumptions C04_sessions_only_from_padr.
    peer-allocated ids (0, in use, reserved: refused), any counter position, any number of
    long-lived sessions, across the 16-bit wrap, and ANY interleaving of the two halves (allocation / indexing)
    of any number of concurrent PADRs — all sessions alive in the table have pairwise distinct ids in 1..65535.
-   Holds for every variant with the id-0 guard, id reservation and the HA check (Repaired). *)
+   Holds for every variant with the id-0 guard, id reservation, the HA check and guarded removal (Repaired). *)
 Theorem C04_sid_distinct_nonzero : forall v e ops s outs x y, reserving v ->
   run v e st0 ops = Some (s, outs) -> alive s x -> alive s y ->
   0 < s_sid x < 65536 /\ (s_sid x = s_sid y -> x = y).
 Proof. exact sid_distinct_nonzero. Qed.
 Print Assumptions C04_sid_distinct_nonzero.
 
-(* historical: before 46cb3dc (no reservation) the same held only for histories in which no two PADRs overlap
-   between allocateSessionID and addToIndexes *)
-Theorem C04_sid_distinct_nonzero_unreserved : forall e ops s outs x y, Forall no_overlap ops ->
-  run Unreserved e st0 ops = Some (s, outs) -> alive s x -> alive s y ->
-  0 < s_sid x < 65536 /\ (s_sid x = s_sid y -> x = y).
-Proof. exact sid_distinct_nonzero_unreserved. Qed.
-Print Assumptions C04_sid_distinct_nonzero_unreserved.
-
-(* ... and this is the schedule that hypothesis excluded (fixed in 46cb3dc): exactly one id k free, two PADRs with valid cookies both pass
+(* historical (fixed in 46cb3dc): without reservation, exactly one id k free, two PADRs with valid cookies both pass
    allocateSessionID before either indexes: both are answered with k, and after both have indexed two
    sessions in the table carry the same session-id.  (Replayed on the real code: harness op P with a gate
    in the AccessResolver; it reproduced on the code before 46cb3dc and is part of every run as a regression case.) *)
@@ -401,6 +393,56 @@ Theorem C04_sid_policy_admissible : forall v s sid n', 0 < norm_next v (next s) 
   (sid = 0 -> alloc_choice v s Refused = Ok (0, next s)).
 Proof. exact policy_is_admissible. Qed.
 Print Assumptions C04_sid_policy_admissible.
+
+(* ---- an id is in use exactly while its session is alive; every teardown path frees exactly that id ---- *)
+Theorem C04_id_used_iff_alive : forall v s k, v_reserve v = true -> Inv s ->
+  id_used v s k = true <-> exists x, alive s x /\ s_sid x = k.
+Proof. exact id_used_iff_alive. Qed.
+Print Assumptions C04_id_used_iff_alive.
+
+(* PADT, dead peer, AAA reject (handleAAAResponse -> handleDeadPeer) and dataplane add failure
+   (onVPPSessionCreated(err) -> tearDownSessionAfterVPPFailure): whenever one of them reports a termination, the
+   session object is marked torn down and is in neither index; if it was live, its id was in use before, is free
+   after, and the status of every other id is unchanged; if it was stale (late callback) both indexes are untouched *)
+Theorem C04_teardown_frees_exactly : forall v e s o s' u, reserving v -> Inv s -> is_teardown o ->
+  step v e s o = Some (s', OTerm u) ->
+  exists x, s_uid x = u /\ ~ live s' x /\ is_gone s' u = true /\
+    (live s x -> id_used v s (s_sid x) = true /\ id_used v s' (s_sid x) = false /\
+                 forall k, k <> s_sid x -> id_used v s' k = id_used v s k) /\
+    (~ live s x -> by_sid s' = by_sid s /\ by_tup s' = by_tup s) /\
+    (live s x \/ o = VPPFAIL x).
+Proof. exact teardown_frees_exactly. Qed.
+Print Assumptions C04_teardown_frees_exactly.
+
+(* the AAA reject finds the session by scanning c.sessions and then looks its id up again: under the invariant
+   the session torn down is the one the answer belongs to *)
+Theorem C04_aaa_reject_terminates_own : forall v e s x s' r, Inv s -> step v e s (AAAREJ x) = Some (s', r) ->
+  r = ONone \/ (r = OTerm (s_uid x) /\ by_tup s !! s_tup x = Some x /\ by_sid s !! s_sid x = Some x).
+Proof. exact aaa_reject_terminates_own. Qed.
+Print Assumptions C04_aaa_reject_terminates_own.
+
+(* a dataplane failure reported for a session that is already torn down changes nothing (7b3d79c), and tearing down
+   a stale object would not touch the indexes anyway (guarded removal, 9893c59) *)
+Theorem C04_late_vpp_failure_ignored : forall v e s x, is_gone s (s_uid x) = true ->
+  step v e s (VPPFAIL x) = Some (s, ONone).
+Proof. exact late_vpp_failure_ignored. Qed.
+Print Assumptions C04_late_vpp_failure_ignored.
+
+Theorem C04_stale_teardown_noop : forall v s x, v_guard_remove v = true -> Inv s -> ~ live s x ->
+  by_sid (remove_indexes v x s) = by_sid s /\ by_tup (remove_indexes v x s) = by_tup s.
+Proof. exact remove_stale_noop. Qed.
+Print Assumptions C04_stale_teardown_noop.
+
+Example C04_teardown_nonvacuous :
+  match run Repaired env0 st0 [padr_of tA; SETATTR tA 1 bob; AAAREJ xA0; AAAREJ xA0;
+                               PADR tB (add_tag TagACCookie (generate toyH 1000 tB)) (Chose 1);
+                               VPPFAIL xA0; SESS tB 1; VPPFAIL xB1; VPPFAIL xB1; SESS tB 1] with
+  | Some (s, outs) => outs = [OPads 1 0; OReach 0; OTerm 0; ONone; OPads 1 1; ONone; OReach 1; OTerm 1; ONone; ONone]
+                      /\ by_sid s !! 1 = None
+  | None => False
+  end.
+Proof. exact teardown_history. Qed.
+Print Assumptions C04_teardown_nonvacuous.
 
 (* the invariant behind it is inductive from any table that satisfies it *)
 Theorem C04_table_invariant : forall v e s o s' r, reserving v -> Inv s -> step v e s o = Some (s', r) -> Inv s'.
@@ -505,16 +547,6 @@ Theorem C04_isolation_history : forall v e t0, owning v -> v_guard_remove v = tr
   (forall a, by_attr s !! a = Some x -> by_attr s' !! a = Some x).
 Proof. exact isolation_run. Qed.
 Print Assumptions C04_isolation_history.
-
-(* historical: before 46cb3dc / 9893c59 isolation held on sidIndex / sessions only, and for non-overlapping PADRs *)
-Theorem C04_isolation_unreserved : forall e s o s' r t, pend s = [] -> no_overlap o -> Inv s -> sender o = Some t ->
-  step Unreserved e s o = Some (s', r) ->
-  (forall k x, by_sid s !! k = Some x -> s_tup x <> t -> by_sid s' !! k = Some x) /\
-  (forall t', t' <> t -> by_tup s' !! t' = by_tup s !! t') /\
-  (forall k x, by_sid s' !! k = Some x -> by_sid s !! k = Some x \/ s_tup x = t) /\
-  (forall u, r = OTerm u \/ r = OReach u -> exists x, live s x /\ s_uid x = u /\ s_tup x = t).
-Proof. exact isolation_unreserved. Qed.
-Print Assumptions C04_isolation_unreserved.
 
 (* what the unguarded removal allowed (fixed in 9893c59): host A gives its own session host B's Username (CHAP Response,
    stored before AAA answers) and PADTs its own session; B's usernameIndex entry is gone although B's session
